@@ -1,0 +1,42 @@
+//go:build verif
+
+package server
+
+// Accessors for the verification harness under /verif (build tag "verif"):
+// the unexported request-URL and resource-name parsers, for direct
+// differential testing.  Nothing in this file is compiled into a normal build.
+
+import (
+	"google.golang.org/grpc/status"
+)
+
+type verifNullLogger struct{}
+
+func (verifNullLogger) Printf(string, ...interface{}) {}
+
+func verifServer() *grpcServer {
+	return &grpcServer{accessLogger: verifNullLogger{}, errorLogger: verifNullLogger{}}
+}
+
+// VerifParseRequestURL exposes parseRequestURL; kind is the cache.EntryKind as an int.
+func VerifParseRequestURL(url string, validateAC bool) (kind int, hash string, instance string, ok bool) {
+	k, h, i, err := parseRequestURL(url, validateAC)
+	return int(k), h, i, err == nil
+}
+
+// VerifParseReadResource exposes (*grpcServer).parseReadResource; code is the gRPC status code (0 = OK).
+func VerifParseReadResource(name string) (hash string, size int64, cmp int, code uint32) {
+	h, s, c, err := verifServer().parseReadResource(name, "VERIF")
+	return h, s, int(c), uint32(status.Code(err))
+}
+
+// VerifParseWriteResource exposes (*grpcServer).parseWriteResource.
+func VerifParseWriteResource(name string) (hash string, size int64, cmp int, code uint32) {
+	h, s, c, err := verifServer().parseWriteResource(name)
+	return h, s, int(c), uint32(status.Code(err))
+}
+
+// VerifValidateHash exposes (*grpcServer).validateHash.
+func VerifValidateHash(hash string, size int64) (code uint32) {
+	return uint32(status.Code(verifServer().validateHash(hash, size, "VERIF")))
+}
